@@ -118,6 +118,9 @@ func z4Alphabet(thorough bool) []z4Op {
 		// the default namespace in another letter case, and a pull by short name from the default registry
 		z4Op{Kind: "create", Name: "Library/a", GGUF: 1},
 		z4Op{Kind: "pullh", Name: "a"},
+		z4Op{Kind: "pullh", Name: "dash"},
+		// a model made of an adapter only
+		z4Op{Kind: "create", Name: "b", GGUF: 4},
 		// streamed creates from a model that is neither in the store nor on the registry, onto a new and onto an existing name
 		// uploads of the bytes of a file that may be in use, announced under a wrong or differently spelled digest
 		z4Op{Kind: "upload", GGUF: 1, As: 2},
@@ -142,6 +145,9 @@ func z4Bytes(k int) []byte {
 	}
 	if k == 3 {
 		data = ztGGUFWith(ggml.KV{"tokenizer.chat_template": z4ChatML})
+	}
+	if k == 4 {
+		data = ztGGUFWith(ggml.KV{"general.type": "adapter"})
 	}
 	return data
 }
@@ -269,6 +275,10 @@ func z4Run(history []z4Op) z4Result {
 				Config: ztLayer{"application/vnd.docker.container.image.v1+json", def.AddBlob(cfg), len(cfg)},
 				Layers: []ztLayer{{"application/vnd.ollama.image.model", def.AddBlob(gguf), len(gguf)}, {"application/vnd.ollama.image.license", def.AddBlob(lic), len(lic)}}})
 			def.Manifests["library/a:latest"] = mb
+			// the same model under another name, its manifest spelling the digests sha256-<hex> (the file name form,
+			// which GetBlobsPath accepts)
+			def.DashDigests = true
+			def.Manifests["library/dash:latest"] = []byte(strings.ReplaceAll(string(mb), `"sha256:`, `"sha256-`))
 		}
 		http.DefaultTransport = fakereg.Multi{w.srv, def}
 		for i, o := range history {
@@ -309,7 +319,14 @@ func z4Run(history []z4Op) z4Result {
 			listed := map[string]bool{}
 			for _, m := range tags.Models {
 				if c, b := ztCall(w.h, "POST", "/api/show", api.ShowRequest{Model: m.Name}); c != 200 {
-					mcrt.Fail("C04: listed-not-showable: %s is listed but /api/show answers %d %s (%s)", m.Name, c, strings.TrimSpace(b), where)
+					clause := "listed-not-showable"
+					// a complete model without weights of its own (made of an adapter only) is a case of its own
+					for mn, raw := range after.Manifests {
+						if strings.EqualFold(mn, z4Full(m.Name)) && strings.Contains(raw, "application/vnd.ollama.image.adapter") && !strings.Contains(raw, "application/vnd.ollama.image.model") {
+							clause = "listed-not-showable-adapter-only"
+						}
+					}
+					mcrt.Fail("C04: %s: %s is listed but /api/show answers %d %s (%s)", clause, m.Name, c, strings.TrimSpace(b), where)
 				}
 				lower := strings.ToLower(m.Name)
 				if listed[lower] {
